@@ -6,6 +6,7 @@ import CookModel.Lemmas.AisleShape
 import CookModel.Lemmas.AisleWF
 import CookModel.Lemmas.AisleRoundtrip
 import CookModel.Lemmas.AisleLookup
+import CookModel.Lemmas.AisleComplete
 /-
   C11  Aisle configuration parsing is total, duplicate-free and round-trips.
 
@@ -112,6 +113,57 @@ theorem C11_lookup (s : List Char) (c : Conf) (h : parse s = .ok c)
 theorem C11_lookup_absent (c : Conf) (n : List Char) (h : n ∉ allNames c.categories) : lookup c n = none :=
   lookup_absent c n h
 
+/-! ### audit additions (notes/audit-C11.md) -/
+
+/-- **Exactly when `parse` succeeds.**  The file parses if and only if its classified lines (`classify`:
+    what a line is from its text alone) have no ingredient line before the first category, no `|` in a
+    category name, no category name twice and no ingredient name twice (`FileOK`,
+    Lemmas/AisleComplete.lean).  So the "either … or" of the property is decided by the file's content:
+    an implementation that reported an error for a duplicate-free, well-ordered file would not satisfy it. -/
+theorem C11_ok_iff (s : List Char) : (∃ c, parse s = .ok c) ↔ FileOK ((lineTexts s).map classify) :=
+  ⟨fun ⟨c, h⟩ => complete_fileOK_of_parse s c h, complete_parse_of_fileOK s⟩
+
+/-- … and an error (never a panic, with legal spans: `C11_total`) is returned exactly for the other files -/
+theorem C11_error_iff (s : List Char) : (∃ e, parse s = .error e) ↔ ¬ FileOK ((lineTexts s).map classify) := by
+  rw [← C11_ok_iff]
+  cases h : parse s with
+  | ok c => exact ⟨fun ⟨e, he⟩ => (by cases he), fun hn => absurd ⟨c, rfl⟩ hn⟩
+  | error e => exact ⟨fun _ ⟨c, hc⟩ => (by cases hc), fun _ => ⟨e, rfl⟩⟩
+
+/-- `WF` is exactly the range of `parse` (`C11_parse_wf` and `C11_roundtrip_wf` as one equivalence) -/
+theorem C11_range_iff_wf (c : Conf) : (∃ s, parse s = .ok c) ↔ WF c :=
+  ⟨fun ⟨s, h⟩ => parse_wf s c h, fun h => ⟨write c, parse_write c h⟩⟩
+
+/-- Lookup in any configuration whose names are pairwise different (every parsed one, and every
+    well-formed one built by hand): each name is found with the category of its line and the first name
+    of its line. -/
+theorem C11_lookup_nodup (c : Conf) (hnd : (allNames c.categories).Nodup)
+    (cat : Category) (i : Ingredient) (n : List Char)
+    (hc : cat ∈ c.categories) (hi : i ∈ cat.ingredients) (hn : n ∈ i.names) :
+    ∃ common, i.names.head? = some common ∧ lookup c n = some ⟨n, common, cat.name⟩ := by
+  cases hh : i.names.head? with
+  | none => rw [List.head?_eq_none_iff] at hh; rw [hh] at hn; simp at hn
+  | some common => exact ⟨common, rfl, lookup_found c hnd cat i n common hc hi hn hh⟩
+
+/-- Lookup, the converse reading: whatever `ingredients_info().get(name)` returns for a parsed
+    configuration is right — `name` is a name of some line of the returned category and the common name
+    is the first name of that line. -/
+theorem C11_lookup_sound (s : List Char) (c : Conf) (h : parse s = .ok c) (n : List Char) (info : Info)
+    (hl : lookup c n = some info) :
+    ∃ cat ∈ c.categories, ∃ i ∈ cat.ingredients, n ∈ i.names ∧
+      info = ⟨n, i.names.head?.getD [], cat.name⟩ := by
+  have hmem : n ∈ allNames c.categories := by
+    apply Classical.byContradiction
+    intro hn
+    rw [lookup_absent c n hn] at hl
+    cases hl
+  simp only [allNames, List.mem_flatMap] at hmem
+  obtain ⟨cat, hc, i, hi, hn⟩ := hmem
+  obtain ⟨common, hh, hfound⟩ := C11_lookup s c h cat i n hc hi hn
+  rw [hfound] at hl
+  cases hl
+  exact ⟨cat, hc, i, hi, hn, by rw [hh]; rfl⟩
+
 /-! ### non-vacuity: the hypotheses are met by concrete non-trivial values -/
 
 /-- "[a]\n x | y //c\r\n[b]" parses to two categories, the first with one ingredient of two names -/
@@ -136,6 +188,14 @@ example : parse ['[','c',']','\n','[','a',']','\x0b'] = .ok ⟨[⟨['c'], []⟩,
 example : parse ['x'] = .error (.expectedCategory ⟨0, 1⟩) := by decide
 example : parse ['[','a','|','b',']'] = .error (.invalidCategory ⟨1, 4⟩) := by decide
 example : parse ['[',']','\n','[',']'] = .error (.duplicateCategory [] ⟨1, 1⟩ ⟨4, 4⟩) := by decide
+
+/-- `FileOK` holds of the first example file and fails for an orphan line, a duplicate, a `|` in a
+    category name -/
+example : FileOK ((lineTexts ['[','a',']','\n',' ','x',' ','|',' ','y',' ','/','/','c','\r','\n','[','b',']']).map classify) :=
+  (C11_ok_iff _).mp ⟨⟨[⟨['a'], [⟨[['x'], ['y']]⟩]⟩, ⟨['b'], []⟩]⟩, by decide⟩
+example : ¬ FileOK ((lineTexts ['x']).map classify) := (C11_error_iff _).mp ⟨.expectedCategory ⟨0, 1⟩, by decide⟩
+example : ¬ FileOK ((lineTexts ['[','é',']','\n','é','|','é']).map classify) := (C11_error_iff _).mp ⟨.duplicateIngredient ['é'] ⟨5, 7⟩ ⟨8, 10⟩, by decide⟩
+example : ¬ FileOK ((lineTexts ['[','a','|','b',']']).map classify) := (C11_error_iff _).mp ⟨.invalidCategory ⟨1, 4⟩, by decide⟩
 
 /-! ### sensitivity: the same statements are FALSE for the code before the repairs
     (`Aisle.Orig.parse`, Side/AisleOrig.lean: upper assertion against the last byte,
